@@ -272,7 +272,8 @@ def rule_no_dontcare(ctx):
                     users.append((b.short, b.where(bi, si)))
     allowed = "<%s as std::ops::Drop>::drop" % PD
     bad = [u for u in users if u[0] != allowed]
-    ctx.check(not bad and len(users) >= 1, R, "only-in-drop", users[0][1] if users else None, "the error-discarding strategy is used only in PtraceDumper::drop (%d site)" % len(users), "errors are discarded outside Drop: %s" % bad)
+    # (no user at all is fine: nothing is discarded through the strategy — Drop may spell its clean-up out, C03/drop-resumes)
+    ctx.check(not bad, R, "only-in-drop", users[0][1] if users else None, "the error-discarding strategy is used only in PtraceDumper::drop (%d site)" % len(users), "errors are discarded outside Drop: %s" % bad)
 
 
 # functions that implement the best-effort steps (the callees whose Result the soft sites branch on)
